@@ -16,7 +16,7 @@ type stepSpec struct {
 
 type tcase struct {
 	Idx           int
-	Family        string // systematic | loop | random | proc
+	Family        string // systematic | loop | spelling | random | proc
 	Mode          string // inproc | proc
 	ApiSite       int
 	Access        string // none | basic   (lfs.<api url>.access)
@@ -389,18 +389,47 @@ func loopTable() []loopRow {
 	return out
 }
 
-// layout of the case list: [systematic slice][loop slice][random inproc][proc]
+// layout of the case list: [systematic slice][loop slice][random inproc][proc][spelling table]
 type plan struct {
-	sys   []sysRow
-	loops []loopRow
-	nRand int
-	nProc int
+	sys    []sysRow
+	loops  []loopRow
+	spells []spellCase
+	nRand  int
+	nProc  int
+}
+
+type spellCase struct {
+	spellRow
+	Role string
+	Proc bool
+}
+
+var allRoles = []string{"batch", "locks-list", "locks-verify", "lock-create", "unlock", "storage-get", "storage-put", "verify"}
+
+// spellPlan: every row of the spelling table in both tiers; quick: one seed-rotated request role per row and
+// every fourth row through the real binary as well; thorough: every role, every row through the binary.
+func spellPlan(seed int64, thorough bool) []spellCase {
+	var out []spellCase
+	for i, row := range spellTable() {
+		if thorough {
+			for _, role := range allRoles {
+				out = append(out, spellCase{row, role, false})
+			}
+			out = append(out, spellCase{row, "", true})
+			continue
+		}
+		out = append(out, spellCase{row, allRoles[(int64(i)*3+seed%8+8)%8], false})
+		if (int64(i)+seed%4+4)%4 == 0 {
+			out = append(out, spellCase{row, "", true})
+		}
+	}
+	return out
 }
 
 func makePlan(seed int64, thorough bool) plan {
 	sys, loops := systematicTable(), loopTable()
 	if thorough {
-		return plan{sys, loops, 7100, 600}
+		return plan{sys, loops, spellPlan(seed, true), 7100, 600}
 	}
 	// quick: a seed-rotated third of the systematic table and half of the loop table
 	var s2 []sysRow
@@ -415,10 +444,10 @@ func makePlan(seed int64, thorough bool) plan {
 			l2 = append(l2, row)
 		}
 	}
-	return plan{s2, l2, 150, 36}
+	return plan{s2, l2, spellPlan(seed, false), 150, 36}
 }
 
-func (p plan) total() int { return len(p.sys) + len(p.loops) + p.nRand + p.nProc }
+func (p plan) total() int { return len(p.sys) + len(p.loops) + len(p.spells) + p.nRand + p.nProc }
 
 func gen(seed int64, idx int, p plan) tcase {
 	r := rand.New(rand.NewSource(seed*1000003 + int64(idx)*7919 + 17))
@@ -430,10 +459,128 @@ func gen(seed int64, idx int, p plan) tcase {
 		genLoop(r, &c, p.loops[idx-len(p.sys)], seed)
 	case idx < len(p.sys)+len(p.loops)+p.nRand:
 		genRandom(r, &c, seed)
-	default:
+		decorateSpelling(seed, &c)
+	case idx < len(p.sys)+len(p.loops)+p.nRand+p.nProc:
 		genProc(r, &c, seed)
+		decorateSpelling(seed, &c)
+	default:
+		genSpelling(r, &c, p.spells[idx-len(p.sys)-len(p.loops)-p.nRand-p.nProc], seed)
 	}
 	return c
+}
+
+// genSpelling: one row of the spelling table. Like a systematic case (credentials wanted at every node, so that
+// whatever git-lfs re-obtains for the redirected URL shows), with the featured first hop spelled as the row says.
+func genSpelling(r *rand.Rand, c *tcase, sc spellCase, seed int64) {
+	c.Family = "spelling"
+	c.Access, c.StorageAccess = "basic", true
+	role, kind := sc.Role, ""
+	if sc.Proc {
+		c.Mode = "proc"
+		pr := [][2]string{{"batch", "fetch"}, {"batch", "push"}, {"locks-list", "locks"}, {"locks-verify", "locks-verify"}, {"lock-create", "lock"}, {"storage-get", "fetch"}, {"storage-put", "push"}, {"verify", "push"}}
+		x := pr[r.Intn(len(pr))]
+		role, kind = x[0], x[1]
+	} else {
+		kind = kindForRole(role, r)
+	}
+	storageRole := role == "storage-get" || role == "storage-put" || role == "verify"
+	srcs := []string{"netrc", "helper", "askpass", "netrc"}
+	portOnly := spellNeedsF(sc.Spell) || sc.Rel == "other-port"
+	if portOnly {
+		// only the port tells the two origins apart: netrc credentials (host name only) could not show anything
+		srcs = []string{"helper", "askpass"}
+	}
+	if !sc.Proc {
+		srcs = append(srcs, "inject")
+	}
+	if storageRole {
+		srcs = append(srcs, "action-basic", "action-bearer")
+		if !portOnly {
+			srcs = append(srcs, "action-token") // (a ?token= is dropped by the scripted redirect: nothing it could carry across)
+		}
+	} else {
+		srcs = append(srcs, "userinfo", "ssh-auth")
+	}
+	src := srcs[r.Intn(len(srcs))]
+	c.Source = src
+	isAction := strings.HasPrefix(src, "action-")
+	if isAction {
+		c.Source, c.Access, c.StorageAccess = "none", "none", false
+	}
+	start, tgt := spellSites(r, sc.Spell, sc.Rel)
+	forms := []string{"abs"}
+	if !spellNeedsAbs(sc.Spell) && sc.Rel != "scheme-down" && sc.Rel != "scheme-up" {
+		forms = []string{"abs", "scheme-rel"}
+		if (sc.Spell == "ws-lead" || sc.Spell == "ws-trail") && sc.Rel == "same-origin" {
+			forms = []string{"abs", "scheme-rel", "path-abs", "query-only", "dot-rel", "seg-rel"}
+		}
+	}
+	ch := &chainSpec{Hops: []hopSpec{{Status: statuses[r.Intn(5)], Form: forms[r.Intn(len(forms))], Target: tgt, Spell: sc.Spell}}, Auth: "all", Challenge: []string{"www", "lfs", "both"}[r.Intn(3)]}
+	if isAction {
+		ch.Auth = []string{"open", "all"}[r.Intn(2)]
+	}
+	if r.Intn(3) == 0 {
+		// a second hop onwards, spelled as usual
+		ch.Hops = append(ch.Hops, hopSpec{Status: statuses[r.Intn(5)], Form: "abs", Target: pickTarget(r, tgt, rels[r.Intn(len(rels))])})
+	}
+	st := stepSpec{Kind: kind, Chains: map[string]*chainSpec{}}
+	key := role
+	c.ApiSite = start
+	if storageRole {
+		c.ApiSite = []int{sAhttp, sAhttps}[r.Intn(2)]
+		st.Objects = genObjects(r, seed, c.Idx, 0, 1)
+		o := &st.Objects[0]
+		o.ActionAuth, o.VerifyAuth = "none", "none"
+		o.StorageSite, o.VerifySite = c.ApiSite, c.ApiSite
+		auth := map[string]string{"action-basic": "basic", "action-bearer": "bearer", "action-token": "token-query"}[src]
+		if role == "verify" {
+			o.VerifySite = start
+			if isAction {
+				o.VerifyAuth = auth
+			}
+		} else {
+			o.StorageSite = start
+			if isAction {
+				o.ActionAuth = auth
+			}
+		}
+		key = role + "/0"
+		st.Chains["batch"] = &chainSpec{Auth: "open"}
+		if role == "verify" {
+			st.Chains["storage-put/0"] = &chainSpec{Auth: "open"}
+		} else if role == "storage-put" {
+			st.Chains["verify/0"] = &chainSpec{Auth: "open"}
+		}
+	}
+	st.Chains[key] = ch
+	c.Steps = []stepSpec{st}
+	fillStep(r, c, &c.Steps[0], 1, seed, 0)
+	c.FeatStep, c.FeatChain, c.FeatStart = 0, key, start
+	if isAction {
+		c.Source = src // for the class name only; the environment has no other source
+	} else {
+		addSecondary(r, c)
+		if c.Source == "netrc" || has(c.Extra, "netrc") {
+			c.NetrcHosts = []string{"127.0.0.1", "127.0.0.2", "localhost", "@F"}
+		}
+	}
+}
+
+// usesF: does the case involve the default-port origin?
+func (c tcase) usesF() bool {
+	if c.ApiSite >= nSites || c.FeatStart >= nSites {
+		return true
+	}
+	for _, st := range c.Steps {
+		for _, ch := range st.Chains {
+			for _, h := range ch.Hops {
+				if h.Target >= nSites {
+					return true
+				}
+			}
+		}
+	}
+	return false
 }
 
 // startFor picks a start site whose scheme allows the wished relation.
@@ -552,15 +699,15 @@ func genLoop(r *rand.Rand, c *tcase, row loopRow, seed int64) {
 	switch row.Pattern {
 	case "self":
 		fs := []string{"abs", "scheme-rel", "path-abs", "query-only", "dot-rel", "seg-rel"}
-		ch.Hops = []hopSpec{{stt(), fs[r.Intn(len(fs))], start}}
+		ch.Hops = []hopSpec{{Status: stt(), Form: fs[r.Intn(len(fs))], Target: start}}
 	case "tri":
 		t1 := pickTarget(r, start, "other-port")
 		t2 := pickTarget(r, t1, "other-host")
-		ch.Hops = []hopSpec{{stt(), "abs", t1}, {stt(), "abs", t2}, {stt(), "abs", start}}
+		ch.Hops = []hopSpec{{Status: stt(), Form: "abs", Target: t1}, {Status: stt(), Form: "abs", Target: t2}, {Status: stt(), Form: "abs", Target: start}}
 	default:
 		t1 := pickTarget(r, start, row.Pattern)
 		f := []string{"abs", "scheme-rel"}
-		ch.Hops = []hopSpec{{stt(), f[r.Intn(2)], t1}, {stt(), f[r.Intn(2)], start}}
+		ch.Hops = []hopSpec{{Status: stt(), Form: f[r.Intn(2)], Target: t1}, {Status: stt(), Form: f[r.Intn(2)], Target: start}}
 	}
 	key := row.Role
 	if storageRole {
@@ -689,6 +836,9 @@ func (c tcase) class() string {
 			rel = "malformed"
 		} else {
 			rel = relIdx(c.FeatStart, h.Target)
+		}
+		if h.Spell != "" {
+			form += "~" + h.Spell // the spelling of the Location value is a coordinate of its own
 		}
 		status = h.Status
 	}
